@@ -136,8 +136,11 @@ fn gen_request(c: &mut Case<'_>) -> Built {
 }
 
 fn mutate(c: &mut Case<'_>, req: &mut Req, presigned: bool) -> Option<String> {
-    let mut kinds = vec!["method", "content-md5", "content-type", "amz-header-value", "amz-header-added", "amz-header-removed", "path-byte", "subresource-value", "subresource-added", "subresource-removed", "signature-char", "access-key"];
+    let mut kinds = vec!["method", "content-md5", "content-type", "amz-header-value", "amz-header-added", "amz-header-removed", "path-byte", "subresource-value", "subresource-added", "subresource-removed", "signature-char", "signature-length", "access-key"];
     kinds.push(if presigned { "expires-value" } else { "date" });
+    if presigned {
+        kinds.push("expires-duplicated");
+    }
     let kind = *c.t.pick(&kinds);
     let set_q = |req: &mut Req, f: &mut dyn FnMut(&mut Vec<String>)| {
         let mut parts: Vec<String> = req.query.as_deref().unwrap_or("").split('&').filter(|s| !s.is_empty()).map(str::to_owned).collect();
@@ -219,6 +222,29 @@ fn mutate(c: &mut Case<'_>, req: &mut Req, presigned: bool) -> Option<String> {
                 return None;
             }
         }
+        "signature-length" => {
+            // a proper prefix of the correct signature (possibly empty)
+            if presigned {
+                let mut done = false;
+                set_q(req, &mut |p| {
+                    for x in p.iter_mut() {
+                        if let Some(v) = x.strip_prefix("Signature=") {
+                            let cut = c.t.below(v.len().min(24));
+                            *x = format!("Signature={}", &v[..cut]);
+                            done = true;
+                        }
+                    }
+                });
+                if !done {
+                    return None;
+                }
+            } else {
+                let a = req.header("authorization")?.to_owned();
+                let (head, sig) = a.rsplit_once(':')?;
+                let cut = c.t.below(sig.len());
+                req.set_header("authorization", &format!("{head}:{}", &sig[..cut]));
+            }
+        }
         "signature-char" => {
             if presigned {
                 set_q(req, &mut |p| {
@@ -250,6 +276,18 @@ fn mutate(c: &mut Case<'_>, req: &mut Req, presigned: bool) -> Option<String> {
                 let new = if a.contains(AK1) { a.replace(AK1, AK2) } else { a.replace(AK2, AK1) };
                 req.set_header("authorization", &new);
             }
+        }
+        "expires-duplicated" => {
+            // a second Expires (in the future) before or after the signed one
+            let nv = now_unix() + 100_000 + c.t.below(100_000) as i64;
+            let front = c.t.bool();
+            set_q(req, &mut |p| {
+                if front {
+                    p.insert(0, format!("Expires={nv}"));
+                } else {
+                    p.push(format!("Expires={nv}"));
+                }
+            });
         }
         "expires-value" => {
             let nv = now_unix() + 100_000 + c.t.below(100_000) as i64;
@@ -302,7 +340,18 @@ fn case(c: &mut Case<'_>) -> CaseResult {
     } else {
         (sigv2::verify_header(&req, &secret_of, vh), false)
     };
-    let want_accept = want.accepted() && !expired;
+    let mut want_accept = want.accepted() && !expired;
+    let mut expired = expired;
+    if class == "mut:expires-duplicated" {
+        // the signature covers one Expires value and the clock must be checked against that same value: a URL signed
+        // with an Expires in the past stays expired whatever else is appended; otherwise refusal and acceptance are both fine
+        if expires_off > 0 {
+            c.label("dc:expires-duplicated-unexpired");
+            return Ok(());
+        }
+        want_accept = false;
+        expired = true;
+    }
     c.label(format!("form:{}", if presigned { "presigned" } else { "header" }));
     c.label(format!("style:{}", if vh.is_some() { "virtual-hosted" } else { "path" }));
     c.label(format!("alt:{class}"));
